@@ -175,7 +175,7 @@ Definition far_clause (upd : bool) (st : result (N * list attr)) (i : ie) : resu
         match aa_unmarshal b with
         | None => Err
         | Some fl => Ok (farid, attrs ++ [A nl_FAR_APPLY_ACTION (V16 fl)])
-        end                                                (* since fix 6f99407 the buffered-packet release happens after the update (model/Release.v), not here *)
+        end                                                (* UpdateFAR remembers the action and releases buffered packets after the request (C13) *)
     | IFwdParams c => if upd then st else fp c
     | IUpdFwdParams c => if upd then fp c else st
     | IBarId v => Ok (farid, attrs ++ [A nl_FAR_BAR_ID (V8 v)])
